@@ -1,7 +1,7 @@
 (* Dispatch.v -- single entry point of the executable model: opcode * argument -> result.
    Used identically by the extracted OCaml driver and by in-Coq vm_compute samples. *)
 From Coq Require Import List ZArith.
-From Yv Require Import Base.Sx Run.RunSym Run.RunGeom Run.RunCache Run.RunTrunc.
+From Yv Require Import Base.Sx Run.RunSym Run.RunGeom Run.RunCache Run.RunTrunc Run.RunStruct Run.RunBlock.
 Import ListNotations.
 Open Scope Z_scope.
 
@@ -18,6 +18,8 @@ Definition run (op : Z) (arg : sx) : sx :=
   | 30 => run_mask_block arg
   | 31 => run_mask_global arg
   | 32 => run_mask_blocks arg
+  | 40 => run_wf_struct arg
+  | 50 => run_blin arg
   | _ => sErr 999
   end.
 
